@@ -1,0 +1,46 @@
+//go:build verif
+
+// Contracts for package log (comment-only; read by /verif/vf, see /verif/DESIGN.md).
+
+package log
+
+//@ pred absInt(o) := ite(o < 0, 0 - o, o)
+//@ pred tzStr(o) := ite(o < 0, "-", "+") + fmtd(absInt(o) / 3600, 2) + fmtd((absInt(o) / 60) % 60, 2)
+//@ pred hexOrZero(h) := ite(len(h) == 0, "0000000000000000000000000000000000000000", hex(h))
+
+//@ func NewRecordType
+//@   returns t
+//@   pure
+//@   ensures [table] {C11} (typeString == "commit" ==> t == CommitRecord) && (typeString == "checkout" ==> t == CheckoutRecord) && (typeString == "branch" ==> t == BranchRecord) && (typeString == "reset" ==> t == ResetRecord)
+//@   ensures [other] {C11} typeString != "commit" && typeString != "checkout" && typeString != "branch" && typeString != "reset" ==> t == UndefinedRecord
+
+//@ func RecordType.String
+//@   returns str
+//@   pure
+//@   ensures [table] {C11} (t == CommitRecord ==> str == "commit") && (t == CheckoutRecord ==> str == "checkout") && (t == BranchRecord ==> str == "branch") && (t == ResetRecord ==> str == "reset")
+
+//@ func NewRecord
+//@   returns r
+//@   ensures [fresh] r != nil && fresh(r)
+//@   ensures [tz] {C11} r.timeDiff == tzStr(time_off(t))
+//@   ensures [fields] {C11} r.recType == recType && string(r.from) == string(from) && string(r.to) == string(to) && r.name == name && r.email == email && r.unixtime == fmtd(time_unix(t), 0) && r.message == message
+
+//@ func record.String
+//@   returns str
+//@   pure
+//@   ensures [format] {C11} r.recType == CommitRecord || r.recType == CheckoutRecord || r.recType == BranchRecord || r.recType == ResetRecord ==> str == hexOrZero(r.from) + " " + hexOrZero(r.to) + " " + r.name + " <" + r.email + "> " + r.unixtime + " " + r.timeDiff + "\t" + recTypeStr(r.recType) + ": " + r.message + "\n"
+//@ pred recTypeStr(t) := ite(t == CommitRecord, "commit", ite(t == CheckoutRecord, "checkout", ite(t == BranchRecord, "branch", "reset")))
+
+//@ func GoitLogger.WriteHEAD
+//@   returns err
+//@   pure
+//@   requires [rec] r != nil
+
+//@ func GoitLogger.WriteBranch
+//@   returns err
+//@   pure
+//@   requires [rec] r != nil
+
+//@ func GoitLogger.DeleteBranch
+//@   returns err
+//@   pure
